@@ -1,6 +1,6 @@
 """C01 — grid coordinate systems map consistently."""
 from ..core import Ctx
-from ..tables import t1_grid
+from ..tables import t1_grid, t2_rot
 from .common import e4
 
 
@@ -8,6 +8,8 @@ def run(ctx: Ctx) -> None:
     t1_grid.run_grid_tables(ctx)
     t1_grid.run_lattice(ctx)
     t1_grid.run_cube(ctx)
+    t1_grid.run_singleton(ctx)  # anchors on grids with one-sample axes: index 0 = origin, (n-1)/2 = 0 = center
+    t2_rot.run_homogeneous(ctx)  # hmm / homogeneous_transform / homogeneous_matrix for every operand form (anchor: core/linalg.py)
     e4(ctx, ["deepali.core.grid", "deepali.core.cube", "deepali.core.linalg", "deepali.core.math"])
     ctx.floor("T1.inverse", 48)
     ctx.floor("T1.triangle", 96)
@@ -16,6 +18,8 @@ def run(ctx: Ctx) -> None:
     ctx.floor("T1.two-grids", 64)
     ctx.floor("T1.lattice", 40)
     ctx.floor("T1.cube", 10)
+    ctx.floor("T1.itk-singleton", 5)
+    ctx.floor("T6.compose", 9)
 
 
 def mutants(prog):
